@@ -27,7 +27,12 @@ Definition erase_schemadef (x : schemadef) : schemadef :=
 
 (* ------------------------------------------------------------------ *)
 (* the grammar as token sequences                                       *)
-Definition flat_desc (desc : str) : list tk := match desc with [] => [] | _ => [(String_, desc)] end.
+Section DK.
+(* how each description is written: as a quoted string or as a block string *)
+Variable dk : str -> kind.
+Hypothesis dk_ok : forall s, dk s = String_ \/ dk s = BlockString.
+
+Definition flat_desc (desc : str) : list tk := match desc with [] => [] | _ => [(dk desc, desc)] end.
 Definition flat_default (dv : option value) : list tk := match dv with Some v => P Equals :: flat_value v | None => [] end.
 Definition flat_argdef (a : argdef) : list tk :=
   flat_desc a.(ad_desc) ++ (Name, a.(ad_name)) :: P Colon :: flat_type a.(ad_type) ++ flat_default a.(ad_default) ++ flat_dirs a.(ad_dirs).
@@ -42,10 +47,10 @@ Definition flat_block {A} (f : A -> list tk) (l : list A) : list tk :=
   match l with [] => [] | _ => P BraceL :: flat_map f l ++ [P BraceR] end.
 
 (* what may follow an argument definition, a field definition, an input value or an enum value *)
-Definition mfol (k : kind) : Prop := k = Name \/ k = String_ \/ k = ParenR \/ k = BraceR.
+Definition mfol (k : kind) : Prop := k = Name \/ k = String_ \/ k = BlockString \/ k = ParenR \/ k = BraceR.
 
-Lemma mfol_facts : forall k, mfol k -> k <> Bang /\ k <> Equals /\ k <> At /\ k <> ParenL /\ k <> Colon /\ k <> BlockString.
-Proof. intros k [-> | [-> | [-> | ->]]]; repeat split; discriminate. Qed.
+Lemma mfol_facts : forall k, mfol k -> k <> Bang /\ k <> Equals /\ k <> At /\ k <> ParenL /\ k <> Colon /\ k <> Amp.
+Proof. intros k [-> | [-> | [-> | [-> | ->]]]]; repeat split; discriminate. Qed.
 
 Section Productions.
   Variable d : dev.
@@ -61,7 +66,8 @@ Section Productions.
       assert (E2 : kind_eqb (tkind t) String_ = false) by (apply kind_eqb_neq; congruence).
       rewrite E1, E2. cbn [orb run]. exists false, s1. auto.
     - cbn [flat_desc app] in Hs. destruct (peek_stream d s _ Hs) as [t [s1 [E [Hk [Hs1 _]]]]]. rewrite E. cbn [fk] in Hk. rewrite Hk.
-      cbn [kind_eqb kind_id N.eqb Pos.eqb orb]. cbn [run].
+      assert (Eb : kind_eqb (dk (c :: tl)) BlockString || kind_eqb (dk (c :: tl)) String_ = true) by (destruct (dk_ok (c :: tl)) as [-> | ->]; reflexivity).
+      rewrite Eb. cbn [run].
       destruct (next_stream d s1 _ _ _ Hs1) as [t2 [s2 [E2 [_ [Hv Hs2]]]]]. rewrite E2. cbn [run]. rewrite Hv. exists true, s2. auto.
   Qed.
 
@@ -180,8 +186,14 @@ Section Productions.
 
   Lemma mfol_name : forall X n, mfol (fk ((Name, n) :: X)). Proof. intros. left. reflexivity. Qed.
 
-  Lemma desc_first : forall desc n X, fk (flat_desc desc ++ (Name, n) :: X) = Name \/ fk (flat_desc desc ++ (Name, n) :: X) = String_.
-  Proof. intros [|c tl] n X; [left|right]; reflexivity. Qed.
+  (* the first token of a member: its name or its description *)
+  Definition sfirst (k : kind) : Prop := k = Name \/ k = String_ \/ k = BlockString.
+  Lemma sfirst_facts : forall k, sfirst k -> k <> ParenR /\ k <> BraceR /\ mfol k.
+  Proof. intros k [-> | [-> | ->]]; (split; [discriminate|split; [discriminate|]]); [left|right; left|right; right; left]; reflexivity. Qed.
+  Lemma desc_first : forall desc n X, sfirst (fk (flat_desc desc ++ (Name, n) :: X)).
+  Proof.
+    intros [|c tl] n X; [left; reflexivity|]. cbn [flat_desc app fk]. destruct (dk_ok (c :: tl)) as [E|E]; rewrite E; [right; left|right; right]; reflexivity.
+  Qed.
 
   Lemma parse_argdefs : forall fuel l s rest, Forall (argdef_ok fuel) l -> (length l < F)%nat -> fk rest <> ParenL ->
     stream d s (flat_argdefs l ++ rest) ->
@@ -194,10 +206,11 @@ Section Productions.
       { subst l. unfold flat_argdefs in Hs. cbn [app] in Hs. rewrite <- app_assoc in Hs. exact Hs. }
       assert (Hel : Forall (elem_spec d F _ _ ParenR (parseArgumentDef fuel) flat_argdef (fun a x => erase_argdef x = erase_argdef a) mfol) l).
       { apply Forall_forall. intros x Hin. rewrite Forall_forall in Hl. split.
-        - intro r. unfold flat_argdef. destruct (ad_desc x); cbn [flat_desc app fk]; split; try discriminate; [left; reflexivity|right; left; reflexivity].
+        - intro r. unfold flat_argdef. rewrite <- app_assoc. cbn [app].
+          match goal with |- context [fk (flat_desc ?de ++ (Name, ?n) :: ?X)] => destruct (sfirst_facts _ (desc_first de n X)) as [A1 [_ A3]] end. split; assumption.
         - intros s0 r Hs0 Hf. exact (parse_argdef fuel x s0 r (Hl x Hin) Hf Hs0). }
       destruct (some_stream d F _ _ ParenR (parseArgumentDef fuel) flat_argdef (fun a x => erase_argdef x = erase_argdef a) mfol
-                  (or_intror (or_intror (or_introl eq_refl))) ParenL l ltac:(subst l; discriminate) Hel s rest Hn Hs') as [xs [s1 [E1 [R1 H1]]]].
+                  (or_intror (or_intror (or_intror (or_introl eq_refl)))) ParenL l ltac:(subst l; discriminate) Hel s rest Hn Hs') as [xs [s1 [E1 [R1 H1]]]].
       exists xs, s1. split; [exact E1|]. split; [exact (Forall2_map_eq _ _ _ erase_argdef erase_argdef l xs R1)|exact H1].
   Qed.
 
@@ -262,7 +275,7 @@ Section Productions.
 
   (* `{ member+ }`, absent when there is no member *)
   Lemma parse_block : forall (A : Type) (cb : prog A) (flat : A -> list tk) (er : A -> A) (ok : A -> Prop),
-    (forall x r, fk (flat x ++ r) = Name \/ fk (flat x ++ r) = String_) ->
+    (forall x r, sfirst (fk (flat x ++ r))) ->
     (forall x s rest, ok x -> mfol (fk rest) -> stream d s (flat x ++ rest) -> exists x' s1, run d cb F s = (x', s1) /\ er x' = er x /\ stream d s1 rest) ->
     forall l s rest, Forall ok l -> (length l < F)%nat -> fk rest <> BraceL -> stream d s (flat_block flat l ++ rest) ->
     exists l' s1, run d (some BraceL BraceR cb) F s = (l', s1) /\ map er l' = map er l /\ stream d s1 rest.
@@ -274,10 +287,10 @@ Section Productions.
       { subst l. unfold flat_block in Hs. cbn [app] in Hs. rewrite <- app_assoc in Hs. exact Hs. }
       assert (Hel : Forall (elem_spec d F _ _ BraceR cb flat (fun a x => er x = er a) mfol) l).
       { apply Forall_forall. intros x Hin. rewrite Forall_forall in Hl. split.
-        - intro r. destruct (Hfirst x r) as [E|E]; rewrite E; split; try discriminate; [left; reflexivity|right; left; reflexivity].
+        - intro r. destruct (sfirst_facts _ (Hfirst x r)) as [_ [A2 A3]]. split; assumption.
         - intros s0 r Hs0 Hf. exact (Hcb x s0 r (Hl x Hin) Hf Hs0). }
       destruct (some_stream d F _ _ BraceR cb flat (fun a x => er x = er a) mfol
-                  (or_intror (or_intror (or_intror eq_refl))) BraceL l ltac:(subst l; discriminate) Hel s rest Hn Hs') as [xs [s1 [E1 [R1 H1]]]].
+                  (or_intror (or_intror (or_intror (or_intror eq_refl)))) BraceL l ltac:(subst l; discriminate) Hel s rest Hn Hs') as [xs [s1 [E1 [R1 H1]]]].
       exists xs, s1. split; [exact E1|]. split; [exact (Forall2_map_eq _ _ _ er er l xs R1)|exact H1].
   Qed.
 
@@ -285,7 +298,7 @@ Section Productions.
   Definition fval (ts : list tk) : str := match ts with [] => [] | (_, v) :: _ => v end.
   (* what may follow a definition: the end, a keyword or a description — but not the word `implements` *)
   Definition dfol (rest : list tk) : Prop :=
-    (fk rest = Name \/ fk rest = String_ \/ fk rest = EOF) /\ str_eqb (fval rest) (b "implements") = false.
+    (fk rest = Name \/ fk rest = String_ \/ fk rest = BlockString \/ fk rest = EOF) /\ str_eqb (fval rest) (b "implements") = false.
 
   (* what peek returns: kind and text of the next token, the end-of-input token having no text *)
   Lemma peek_val : forall s ts, stream d s ts ->
@@ -351,7 +364,7 @@ Section Productions.
 
   Lemma dfol_facts : forall rest, dfol rest ->
     fk rest <> At /\ fk rest <> ParenL /\ fk rest <> BraceL /\ fk rest <> Equals /\ fk rest <> Pipe /\ fk rest <> Amp.
-  Proof. intros rest [[H | [H | H]] _]; rewrite H; repeat split; discriminate. Qed.
+  Proof. intros rest [[H | [H | [H | H]]] _]; rewrite H; repeat split; discriminate. Qed.
 
   Lemma fval_dirs : forall dirs X, flat_dirs dirs = [] /\ fval (flat_dirs dirs ++ X) = fval X \/ fval (flat_dirs dirs ++ X) = [] /\ fk (flat_dirs dirs ++ X) = At.
   Proof. intros [|x tl] X; [left|right]; split; reflexivity. Qed.
@@ -384,12 +397,12 @@ Section Productions.
     run d (if ext && empty then unexpectedError ;;; Ret x else Ret x) F s = (x, s).
   Proof. intros ext empty x s ts Hs H. destruct ext; [rewrite (H eq_refl)|]; reflexivity. Qed.
 
-  Lemma fielddef_first : forall x r, fk (flat_fielddef x ++ r) = Name \/ fk (flat_fielddef x ++ r) = String_.
-  Proof. intros x r. unfold flat_fielddef. destruct (fd_desc x); [left|right]; reflexivity. Qed.
-  Lemma inputvalue_first : forall x r, fk (flat_inputvalue x ++ r) = Name \/ fk (flat_inputvalue x ++ r) = String_.
-  Proof. intros x r. unfold flat_inputvalue. destruct (fd_desc x); [left|right]; reflexivity. Qed.
-  Lemma enumval_first : forall x r, fk (flat_enumval x ++ r) = Name \/ fk (flat_enumval x ++ r) = String_.
-  Proof. intros x r. unfold flat_enumval. destruct (ev_desc x); [left|right]; reflexivity. Qed.
+  Lemma fielddef_first : forall x r, sfirst (fk (flat_fielddef x ++ r)).
+  Proof. intros x r. unfold flat_fielddef. rewrite <- app_assoc. cbn [app]. apply desc_first. Qed.
+  Lemma inputvalue_first : forall x r, sfirst (fk (flat_inputvalue x ++ r)).
+  Proof. intros x r. unfold flat_inputvalue. rewrite <- app_assoc. cbn [app]. apply desc_first. Qed.
+  Lemma enumval_first : forall x r, sfirst (fk (flat_enumval x ++ r)).
+  Proof. intros x r. unfold flat_enumval. rewrite <- app_assoc. cbn [app]. apply desc_first. Qed.
 
   Lemma nonnil : forall (A : Type) (l : list A), l <> [] -> nil_ l = false.
   Proof. intros A [|x l] H; [congruence|reflexivity]. Qed.
@@ -522,7 +535,7 @@ Section Productions.
     cdirs_ok fuel x.(sd_dirs) /\ Forall (fun o => o.(ot_op) <> OpNone) x.(sd_ops) /\ (length x.(sd_ops) < F)%nat
     /\ (if ext then x.(sd_desc) = [] /\ (x.(sd_dirs) <> [] \/ x.(sd_ops) <> []) else x.(sd_ops) <> [] \/ d F_S1 = true).
 
-  Lemma optype_first : forall x r, fk (flat_optype x ++ r) = Name \/ fk (flat_optype x ++ r) = String_.
+  Lemma optype_first : forall x r, sfirst (fk (flat_optype x ++ r)).
   Proof. intros x r. left. reflexivity. Qed.
 
   Lemma parse_schemadef : forall fuel desc x s rest, schemadef_ok fuel false x -> dfol rest -> stream d s (flat_schemabody x ++ rest) ->
@@ -653,17 +666,21 @@ Section Productions.
 
   Lemma item_dfol : forall fuel it X, item_ok fuel it -> dfol (flat_item it ++ X).
   Proof.
+    assert (Hdk : forall de, de <> [] -> dk de = String_ \/ dk de = BlockString) by (intros de _; apply dk_ok).
     intros fuel it X Hok. unfold dfol. destruct it as [x|x|x|x|x|]; cbn [item_ok flat_item] in *; try contradiction.
-    - destruct Hok as [_ Hd]. destruct (df_desc x) as [|c tl] eqn:E; cbn [flat_desc app fk fval]; [split; [left; reflexivity|apply kw_not_implements]|split; [right; left; reflexivity|exact Hd]].
+    - destruct Hok as [_ Hd]. destruct (df_desc x) as [|c tl] eqn:E; cbn [flat_desc app fk fval]; [split; [left; reflexivity|apply kw_not_implements]|].
+      split; [|exact Hd]. destruct (dk_ok (c :: tl)) as [E'|E']; rewrite E'; [right; left|right; right; left]; reflexivity.
     - split; [left; reflexivity|reflexivity].
-    - destruct Hok as [_ Hd]. destruct (sd_desc x) as [|c tl] eqn:E; cbn [flat_desc flat_schemabody app fk fval]; [split; [left; reflexivity|reflexivity]|split; [right; left; reflexivity|exact Hd]].
+    - destruct Hok as [_ Hd]. destruct (sd_desc x) as [|c tl] eqn:E; cbn [flat_desc flat_schemabody app fk fval]; [split; [left; reflexivity|reflexivity]|].
+      split; [|exact Hd]. destruct (dk_ok (c :: tl)) as [E'|E']; rewrite E'; [right; left|right; right; left]; reflexivity.
     - split; [left; reflexivity|reflexivity].
-    - destruct Hok as [_ Hd]. destruct (dd_desc x) as [|c tl] eqn:E; cbn [flat_desc flat_dirdefbody app fk fval]; [split; [left; reflexivity|reflexivity]|split; [right; left; reflexivity|exact Hd]].
+    - destruct Hok as [_ Hd]. destruct (dd_desc x) as [|c tl] eqn:E; cbn [flat_desc flat_dirdefbody app fk fval]; [split; [left; reflexivity|reflexivity]|].
+      split; [|exact Hd]. destruct (dk_ok (c :: tl)) as [E'|E']; rewrite E'; [right; left|right; right; left]; reflexivity.
   Qed.
 
   Lemma items_dfol : forall fuel l, Forall (item_ok fuel) l -> dfol (flat_map flat_item l).
   Proof.
-    intros fuel [|it tl] H; [split; [right; right; reflexivity|reflexivity]|]. inversion H; subst. cbn [flat_map]. apply (item_dfol fuel); assumption.
+    intros fuel [|it tl] H; [split; [right; right; right; reflexivity|reflexivity]|]. inversion H; subst. cbn [flat_map]. apply (item_dfol fuel); assumption.
   Qed.
 
   (* the head of one loop iteration: end-of-input test, description, keyword *)
@@ -692,14 +709,17 @@ Section Productions.
   Proof.
     intros fuel desc kw X s Hkw Hs _. unfold parseSchemaDocument_body. cbn [run].
     destruct (peek_stream d s _ Hs) as [t0 [s0 [E0 [Hk0 [H0 _]]]]]. rewrite E0.
-    assert (Hne : kind_eqb (tkind t0) EOF = false) by (apply kind_eqb_neq; rewrite Hk0; destruct desc; cbn; discriminate).
+    assert (Hne : kind_eqb (tkind t0) EOF = false).
+    { apply kind_eqb_neq. rewrite Hk0. destruct desc as [|c0 tl0]; cbn [flat_desc app fk]; [discriminate|]. destruct (dk_ok (c0 :: tl0)) as [E'|E']; rewrite E'; discriminate. }
     rewrite Hne. cbn [run]. rewrite (stream_noerr d s0 _ H0). cbn [run].
     destruct (peek_stream d s0 _ H0) as [t1 [s1 [E1 [Hk1 [H1 _]]]]]. rewrite E1.
     destruct desc as [|c tl].
     - cbn [flat_desc app fk] in *. rewrite Hk1. cbn [kind_eqb kind_id N.eqb Pos.eqb orb]. cbn [run].
       destruct (peek_stream d s1 _ H1) as [t2 [s2 [E2 [Hk2 [H2 Hv2]]]]]. rewrite E2.
       exists false, t2, s2. split; [reflexivity|]. auto.
-    - cbn [flat_desc app fk] in *. rewrite Hk1. cbn [kind_eqb kind_id N.eqb Pos.eqb orb].
+    - cbn [flat_desc app fk] in *. rewrite Hk1.
+      assert (Eb : kind_eqb (dk (c :: tl)) BlockString || kind_eqb (dk (c :: tl)) String_ = true) by (destruct (dk_ok (c :: tl)) as [E'|E']; rewrite E'; reflexivity).
+      rewrite Eb.
       destruct (parse_desc (c :: tl) s1 ((Name, kw) :: X) ltac:(cbn; discriminate) ltac:(cbn; discriminate) H1) as [b0 [s2 [E2 H2]]].
       cbn [run]. rewrite E2. cbv beta iota. cbn [run].
       destruct (peek_stream d s2 _ H2) as [t3 [s3 [E3 [Hk3 [H3 Hv3]]]]]. rewrite E3.
@@ -860,5 +880,6 @@ Section Whole.
     unfold sdoc_of. apply (collect_erase items l' I2). reflexivity.
   Qed.
 End Whole.
+End DK.
 
 
